@@ -113,6 +113,15 @@ example :
       && decide ((runFL defaultSplitCfg {} 0 hdr).snd = 0) && (runFL defaultSplitCfg {} 0 hdr).fst.isCreate) = true := by
   decide +kernel
 
+/-- `hdrOK` refuses a DECLARE section *before* BEGIN, and rightly so: DECLARE raises the level while `is_create` is set and no block is open,
+nothing lowers it again, and the statement after the procedure is swallowed (model and code agree: `sqlparse.split` returns one statement).  The
+property speaks of DECLARE sections *inside* the BEGIN … END body — those are leaves of the block grammar (`leafOK`). -/
+theorem declare_before_begin_counterexample :
+    (splitProcess defaultSplitCfg
+      [tk T.DDL "create", tk T.Keyword "procedure", tk T.Name "p", tk T.Keyword "declare", tk T.Name "x", tk T.Punctuation ";",
+       tk T.Keyword "begin", tk T.Name "y", tk T.Punctuation ";", tk T.Keyword "end", tk T.Punctuation ";",
+       tk T.DML "select", tk T.Integer "1", tk T.Punctuation ";"]).toOption.map List.length = some 1 := by decide +kernel
+
 /-- known finding KF-C17-1: `FOR … LOOP … END LOOP` — FOR raises the level, `END LOOP` is not a closing keyword for the
 splitter (it lists `END FOR`, which the lexer never produces): the level stays one too high, the following statement is swallowed -/
 theorem for_loop_counterexample :
